@@ -121,6 +121,9 @@ func WorkerMain(ch *Check) {
 			w.Write(b)
 			w.WriteByte('\n')
 			w.Flush()
+			if res.Obs.Poisoned {
+				os.Exit(0)
+			}
 		}
 		if err != nil {
 			if err != io.EOF {
